@@ -60,6 +60,8 @@ def make_judges(ctx):
             return
         cname = CANON.get(name, name)
         fkw = dict(fkw or {})
+        if cname == 'clip' and fkw.get('method') in ('raw', 'repr'):
+            fkw.pop('method')       # (both calculation methods give the clipped values: every value of the quantifier is an exact double)
         if set(fkw) - ALLOWED_KW:
             ctx.skip('red:keyword outside the model (out/sizing/...)')
             return
@@ -237,7 +239,7 @@ def floors(tier):
     cells = [(f, r) for f in ('sum', 'cumsum', 'prod', 'cumprod', 'max', 'min', 'clip', 'transpose', 'diagonal', 'trace', 'dot') for r in ('numpy', 'method')]
     cells += [('sort', 'numpy'), ('sort', 'method'), ('matmul', 'numpy'), ('transpose_axes',)]
     cells += [('clip_bounds', b) for b in ('float/float', 'ndarray/ndarray', 'list/list', 'Fxp/Fxp', 'float/none', 'none/float')]
-    cells += [('clip_bounds_other_format',), ('clip_min_max_keywords',), ('clip_narrow_numpy_bound', 'i'), ('clip_narrow_numpy_bound', 'u'), ('clip_narrow_numpy_bound', 'f'), ('clip_beyond_range', 's'), ('clip_beyond_range', 'u')]
+    cells += [('clip_bounds_other_format',), ('clip_value_method_fxp_bounds',), ('clip_min_max_keywords',), ('clip_narrow_numpy_bound', 'i'), ('clip_narrow_numpy_bound', 'u'), ('clip_narrow_numpy_bound', 'f'), ('clip_beyond_range', 's'), ('clip_beyond_range', 'u')]
     cells += [('edge_format', f) for f in ('sum', 'cumsum', 'prod', 'cumprod', 'dot', 'clip', 'max', 'sort')]
     cells += [('acc_significant_bits>24', 'dot'), ('acc_significant_bits>11', 'dot'), ('acc_significant_bits>11', 'sum'), ('noncontiguous_operand',)]
     return cells
@@ -393,6 +395,14 @@ def run_case(case, ctx):
             _try(lambda: x.clip(blo, bhi))
             _try(lambda: np.clip(x, blo, amax))
             ctx.floor_hit(('clip_bounds_other_format',))
+            # the same by the value based method (every value here is an exact double): given by keyword, and configured on the operand
+            _try(lambda: x.clip(blo, bhi, method='repr'))
+            _try(lambda: np.clip(x, None, bhi, method='repr'))
+            xr_ = _try(lambda: Fxp(np.asarray(x.val).copy(), s, w, nf, raw=True, op_method='repr', array_op_method='repr'))
+            if xr_ is not None:
+                _try(lambda: xr_.clip(blo, bhi))
+                _try(lambda: np.clip(xr_, blo, None))
+            ctx.floor_hit(('clip_value_method_fxp_bounds',))
     # bounds given as NumPy numbers / arrays of a narrow type (int8, uint8, int16, float16, float32), whole-valued so that every type carries them exactly; with the
     # element that gets clipped first or last; the NumPy 2.1 keyword spelling
     ia, ib = sorted([int(F(a) * R.lsb(nf)), int(F(b) * R.lsb(nf))])
